@@ -34,6 +34,25 @@ type mergeObs struct {
 	urls   gateway.FieldURLMap
 }
 
+// loadSvcSchema parses a service's SDL; with strip the result looks like an introspected schema:
+// gqlparser adds __schema and __type to Query when it loads SDL, an introspection does not list them
+func loadSvcSchema(sdl string, strip bool) (*ast.Schema, error) {
+	sch, err := graphql.LoadSchema(sdl)
+	if err != nil || !strip {
+		return sch, err
+	}
+	if q := sch.Types["Query"]; q != nil {
+		kept := ast.FieldList{}
+		for _, f := range q.Fields {
+			if f.Name != "__schema" && f.Name != "__type" {
+				kept = append(kept, f)
+			}
+		}
+		q.Fields = kept
+	}
+	return sch, nil
+}
+
 func mergeOnce(mc *mergeCase, order []int) (obs mergeObs, srcSchemas []*ast.Schema, err error) {
 	return mergeShared(mc, order, nil)
 }
@@ -50,7 +69,7 @@ func mergeShared(mc *mergeCase, order []int, shared []*ast.Schema) (obs mergeObs
 		if shared != nil {
 			sch = shared[i]
 		} else {
-			sch, lerr = graphql.LoadSchema(s.SDL)
+			sch, lerr = loadSvcSchema(s.SDL, mc.Strip)
 		}
 		if lerr != nil {
 			return obs, nil, fmt.Errorf("service %s: %v", s.Name, lerr)
@@ -120,7 +139,7 @@ func runMerge(cfg *runCfg, prop string, injectPct int, oracle string) error {
 		var base []*ast.Schema
 		bad := false
 		for _, s := range mc.Services {
-			sch, lerr := graphql.LoadSchema(s.SDL)
+			sch, lerr := loadSvcSchema(s.SDL, mc.Strip)
 			if lerr != nil {
 				doc.Dist["generator:invalid-sdl"]++
 				if doc.Dist["generator:invalid-sdl"] < 4 {
@@ -167,7 +186,7 @@ func runMerge(cfg *runCfg, prop string, injectPct int, oracle string) error {
 			n := len(base)
 			shared := make([]*ast.Schema, n)
 			for i, s := range mc.Services {
-				shared[i], _ = graphql.LoadSchema(s.SDL)
+				shared[i], _ = loadSvcSchema(s.SDL, mc.Strip)
 			}
 			first, second := []int{}, []int{}
 			for i := 0; i < n; i++ {
@@ -211,6 +230,9 @@ func runMerge(cfg *runCfg, prop string, injectPct int, oracle string) error {
 		}
 		doc.Dist[tag]++
 		doc.Dist[fmt.Sprintf("services:%d", len(mc.Services))]++
+		if mc.Strip {
+			doc.Dist["introspected-like-sources"]++
+		}
 		key, _ := json.Marshal(mc)
 		doc.Cases = append(doc.Cases, CaseInfo{ID: id, Kind: "merge", Input: mc, Observed: observed,
 			Nontrivial: len(mc.Services) >= 2 && sharedNames(mc) > 0, Key: string(key)})
